@@ -18,7 +18,18 @@ ASSUMPTIONS = ["a clean stop and restart = stop(), a new gateway object with the
                "(threading.Timer replaced by an inert fake; asyncio flavour: load + one save inline)",
                "a periodic save tick = one call of Persistence.save_sensors (what the timer / the asyncio task calls)",
                "the file system behaves (no faults here: C12/C13)"]
-THEOREMS_DOC = {}
+THEOREMS_DOC = {
+    'C14_tree_change_marks_dirty': 'with persistence a dispatcher call that changes the persisted tree leaves the state marked unsaved',
+    'C14_logic_dirty_exact': 'the flag after a dispatcher call: set iff accepted and alerting (and persistence), else unchanged',
+    'C14_logic_never_clears': 'the dispatcher never clears the flag',
+    'C14_controller_ops_frame': 'controller calls change neither the persisted tree nor the flag',
+    'C14_send_job_frame': 'pumping a queued send job changes neither the persisted tree nor the flag',
+    'C14_proj_load_tree': 'loading a persisted tree and projecting it again is the identity',
+    'C14_clean_implies_synced': 'invariant over all histories with saves and restarts: flag clear implies the file holds exactly the current tree',
+    'C14_stop_loses_nothing': 'after stop and the next start the gateway and the file hold exactly the tree held at the stop',
+    'C14_dirty_flag_is_write_only': 'gateways equal but for the flag stay so under every operation (simulation through all handlers)',
+    'C14_save_tick_positions_irrelevant': 'histories differing only in the placement of periodic saves end, after stop/restart, in the identical gateway and file',
+    'C14_save_tick_positions_tree': '... in particular in the same tree and file'}
 SCOPE = ["tree", "dirty"]
 MONITORS = ["c14"]
 
